@@ -88,8 +88,14 @@ def execute(c):
                 ev["outcome"] = "alignment_is_not_origin_modulo_pixel_size"
             if not (gs == _gs(g)) or gs == "gridspec" or gs == _gs(dict(g, ox=g["ox"] + 1)):
                 ev["outcome"] = "gridspec_equality_or_hash_inconsistent"
-        elif op in ("bbox", "poly", "mpoly"):
-            if op == "mpoly":
+        elif op in ("bbox", "poly", "mpoly", "tinypoly"):
+            if op == "tinypoly":
+                # a polygon far smaller than a pixel (side 5e-5 units) around a lattice point inside a tile: it overlaps that tile
+                px, py = c["p"][0] / S, c["p"][1] / S
+                out = [list(map(int, i)) for i, _ in gs.tiles_from_geopolygon(G.box(px - 2.5e-5, py - 2.5e-5, px + 2.5e-5, py + 2.5e-5, CRS_A))]
+                x0 = x1 = c["p"][0]
+                y0 = y1 = c["p"][1]
+            elif op == "mpoly":
                 parts = [[(p[0] / S, p[1] / S) for p in part] for part in c["q"]]
                 mp = G.multipolygon([[part + part[:1]] for part in parts], CRS_A)
                 out = [list(map(int, i)) for i, _ in gs.tiles_from_geopolygon(mp)]
@@ -165,7 +171,7 @@ def run(ctx):
     by = {}
     for c in cases:
         by.setdefault(c["op"], []).append(c)
-    caps = {"bbox": 5000, "poly": 2500, "sample": 576, "spec": 192, "web": 6} if q else {"bbox": 120000, "poly": 40000}
+    caps = {"bbox": 5000, "poly": 2500, "tinypoly": 600, "sample": 576, "spec": 192, "web": 6} if q else {"bbox": 120000, "poly": 40000}
     cases = [c for op, cs in sorted(by.items()) for c in ctx.subsample(cs, caps.get(op, 10 ** 9))]
     events = ctx.pmap(execute, cases)
     verdicts = _validate(ctx, events)
